@@ -6,6 +6,10 @@ import os
 VERIF = os.path.dirname(os.path.dirname(os.path.abspath(__file__)))
 
 CLAIMED = {
+    "C17": dict(level="exploration", design="3/C17",
+                technique="deterministic simulation: seeded endpoint-move, group-add and freeform-build histories with held handles and checkpoint/restart against geometric reference models",
+                text="Seeded search over connector endpoint moves (crossing the other endpoint in either axis), additions of every shape kind into groups nested to depth 4, and freeform builds with negative/fractional/repeated vertices, several contours and non-uniform scales, with saves and restarts in between; each step is checked against a geometric reference model (endpoint tuple, recursive bounding box incl. a:chOff/a:chExt parsed from the serialised part, scaled vertex bounding box and path extents).",
+                note="trusted: the geometric models in sim/props/c17.py; freeform compared to within 1 EMU; empty sub-group ambiguity accepted both ways"),
     "C14": dict(level="exploration", design="3/C14",
                 technique="deterministic simulation: seeded merge/split/text/resize histories with held cell handles and checkpoint/restart against a grid reference model; deterministic sweep of all single merges on shapes <=4x4",
                 text="Seeded search over table operation histories (merge in any corner orientation, overlapping and cross-table merges, split, cell text, row/column resize) with cell handles held across operations and restarts in between, checked operation by operation against a grid reference model (disjoint rectangles, span readings, refused operations leave the part byte-identical, text migration order, frame size = sums), plus a complete depth-1 sweep on every table shape up to 4x4. The statement's depth-3 exhaustive sweep is not claimed.",
